@@ -259,6 +259,23 @@ def _bc_params(case, vl, vr):
     return out
 
 
+def _bc_params_sparse(case, vl, vr):
+    """the same boundary data with every key that has its documented default left out (val = 0, reduce = False,
+    neumann_bc_order = order): another spelling of the same request"""
+    order = case.get('order', 2)
+    out = []
+    for p in _bc_params(case, vl, vr):
+        q = dict(p)
+        if q.get('val') == 0.0:
+            q.pop('val')
+        if q.get('reduce') is False:
+            q.pop('reduce')
+        if q.get('neumann_bc_order') == order:
+            q.pop('neumann_bc_order')
+        out.append(q)
+    return out
+
+
 def check_bounded(case):
     der, order, size, dim = case['derivative'], case.get('order', 2), case['size'], case.get('dim', 1)
     left, right = case['interval']
@@ -286,6 +303,11 @@ def check_bounded(case):
         AL, bL = call(1.0, 0.0)
         AR, bR = call(0.0, 1.0)
         AG, bG = call(vl, vr)
+        # the sparse spelling of the same per-side data must give the same operator and boundary vector, bit for bit
+        for (a, c), (Aref, bref) in (((0.0, 0.0), (A0, b0)), ((1.0, 0.0), (AL, bL)), ((0.0, 1.0), (AR, bR)), ((vl, vr), (AG, bG))):
+            As, bs = _matrix_call(case, 1, dx, bc_arg, _bc_params_sparse(case, a, c))
+            if As.shape != Aref.shape or (As != Aref).nnz != 0 or bs.shape != bref.shape or np.any(bs != bref):
+                return _res(5, np.inf, 'bad', _viol('per_side_parameters_depend_on_spelling', data=[a, c], full=_bc_params(case, a, c), sparse=_bc_params_sparse(case, a, c)))
         if case.get('default_params'):
             # zero-data aliases called without bc_params at all (shifted treatment, default Neumann order)
             AD, bD = _matrix_call(case, 1, dx, bc_arg, None)
